@@ -383,6 +383,27 @@ func init() {
 						if changed {
 							c08Case(c, c08Replay{Kind: "c08", Depth: d, Names: names, State: st2, Strict: true, Form: "abs", Route: "md"})
 						}
+						// inner kinds: a node that has children exists as a regular file (nothing can exist below it)
+						for _, rt := range m {
+							for _, row := range model.Rows(rt, model.DefaultFmt) {
+								if _, ok := st[row.Path]; !ok || !row.HasChild {
+									continue
+								}
+								st3 := map[string]byte{}
+								for p, k := range st {
+									if !strings.HasPrefix(p, row.Path+"/") {
+										st3[p] = k
+									}
+								}
+								st3[row.Path] = 'f'
+								for _, strict := range []bool{false, true} {
+									c08Case(c, c08Replay{Kind: "c08", Depth: d, Names: names, State: st3, Strict: strict, Form: "abs", Route: "md"})
+									if roots == 1 {
+										c08Case(c, c08Replay{Kind: "c08", Depth: d, Names: names, State: st3, Strict: strict, Form: "abs", Route: "root", Extra: "massive"})
+									}
+								}
+							}
+						}
 					})
 				})
 			})
